@@ -196,6 +196,7 @@ def strip_await(e: ast.expr) -> ast.expr:
 
 
 _UID = [0]
+_PURE_BUILTINS = {"isinstance", "issubclass", "len", "bool", "type", "hasattr", "callable", "abs", "min", "max"}
 
 
 def _tag_calls(fn: ast.AST) -> None:
@@ -207,7 +208,8 @@ def _tag_calls(fn: ast.AST) -> None:
 
 def tag_tree(tree: ast.AST) -> ast.AST:
     """Mark every call of a (copied) tree with the uid of its call site, innermost first."""
-    calls = [n for n in ast.walk(tree) if isinstance(n, ast.Call) and hasattr(n, "_uid")]
+    # tests spelled with a pure builtin are functions of their operands: two occurrences are one value
+    calls = [n for n in ast.walk(tree) if isinstance(n, ast.Call) and hasattr(n, "_uid") and not (isinstance(n.func, ast.Name) and n.func.id in _PURE_BUILTINS)]
     for n in reversed(calls):  # ast.walk is breadth first: reversed visits inner calls before the calls that contain them
         n.func = ast.Name(id=f"{unparse(n.func)}#{n._uid}", ctx=ast.Load())  # type: ignore[attr-defined]
     return tree
